@@ -11,6 +11,9 @@ Tie, three layers, all against the `fend` binary built from /repo:
       FEND_CACHE_DIR pointing at the damaged file: stdout / stderr / exit
       status vs what fend_core itself (harness h_cli) prints when its
       exchange-rate handler answers what the model says the cache yields.
+  W   which file is read: FEND_CACHE_DIR names with spaces / non-ASCII / non-UTF-8 bytes holding an intact,
+      truncated, damaged, stale, empty or absent cache while $HOME/.cache/fend and $XDG_CACHE_HOME/fend hold an
+      intact decoy with other rates: the answer is the model's for the designated file, never a decoy rate.
 The float oracle (str::parse::<f64> + is_normal) is the implementation's own
 (`--verif-hook f64-stdin`), handed to the model as a finite table.
 Spec (independent of the model, applied to the implementation's answers):
@@ -651,6 +654,124 @@ def l3_layer(c, fend, oracle, scratch, jobs, stats):
 
 
 # ---------------------------------------------------------------------------
+# W: which file is read
+
+DIRNAMES = [b'plain', b'with space', 'caché-€'.encode('utf-8'), b'not-utf8-\xff\xfe', b'semi;colon=and$dollar']
+
+def decoy_of(data):
+    """an intact cache with different rates: every rate token gets a leading 9"""
+    return re.sub(rb"(rate='|<rate>)", rb"\g<1>9", data)
+
+def which_file_layer(c, fend, oracle, scratch, files, stats):
+    """FEND_CACHE_DIR with awkward names (spaces, non-ASCII, not UTF-8) holding an intact / truncated / damaged /
+    absent cache, while $HOME/.cache/fend and $XDG_CACHE_HOME/fend hold an intact decoy with other rates.
+    Expected: what the model says for the designated file -- never a decoy rate."""
+    now = int(time.time())
+    age = 259200
+    ts = str(now - 5).encode() + b';'
+    root = os.path.join(scratch, 'which').encode()
+    worker = [sys.executable, os.path.join(vlib.ROOT, 'gen', 'c19_worker.py')]
+    cases = []
+    for src in (0, 1):
+        small = files['eu_small' if src == 0 else 'un_small']
+        intact = ts + small
+        states = [('intact', intact), ('truncated', intact[:len(intact) * 2 // 3]), ('truncated-early', intact[:40]),
+                  ('damaged', intact.replace(b"rate='1", b"rate='x", 1).replace(b'<rate>0', b'<rate>x', 1)),
+                  ('stale', b'1;' + small), ('empty', b''), ('absent', None), ('no-dir', 'NODIR')]
+        cfg = os.path.join(scratch, 'which_cfg_' + SRCNAME[src])
+        os.makedirs(cfg, exist_ok=True)
+        with open(os.path.join(cfg, 'config.toml'), 'w') as fh:
+            fh.write('exchange-rate-source = "%s"\nenable-colors = false\n' % ('EU' if src == 0 else 'UN'))
+        for di, dn in enumerate(DIRNAMES):
+            for sn, data in states:
+                for xdg in (True, False):
+                    base = os.path.join(root, b'%d_%d_%s_%d' % (src, di, sn.encode(), xdg))
+                    desig = os.path.join(base, dn)
+                    home = os.path.join(base, b'home')
+                    xdgd = os.path.join(base, b'xdg')
+                    if data != 'NODIR':
+                        os.makedirs(desig)
+                        if data is not None:
+                            with open(os.path.join(desig, CACHE_NAME[src].encode()), 'wb') as fh:
+                                fh.write(data)
+                    for dec in (os.path.join(home, b'.cache', b'fend'), os.path.join(xdgd, b'fend')):
+                        os.makedirs(dec)
+                        with open(os.path.join(dec, CACHE_NAME[src].encode()), 'wb') as fh:
+                            fh.write(decoy_of(intact))
+                    env = {'PATH': os.environ.get('PATH', '/usr/bin:/bin'), 'HOME': os.fsdecode(home), 'FEND_CONFIG_DIR': cfg,
+                           'FEND_CACHE_DIR': os.fsdecode(desig), 'RUST_BACKTRACE': '0', 'NO_COLOR': '1'}
+                    if xdg:
+                        env['XDG_CACHE_HOME'] = os.fsdecode(xdgd)
+                    for ex in EXPRS[src]:
+                        cases.append((src, dn, sn, xdg, data if isinstance(data, bytes) else None, ex, env))
+    # model: the designated file only
+    docs = sorted({(cs[0], cs[4]) for cs in cases if cs[4] is not None})
+    tl = [sx([Sym('tokens-batch'), src, 1, now, age, d, [[2]]]) for src, d in docs]
+    toks = {}
+    for k, o in zip(docs, model_lines(c, tl)):
+        toks[k] = set(parse_sx(o)[0])
+    oracle.need(set().union(*toks.values()) if toks else set())
+    cl = [sx([Sym('cache-batch'), src, FIXED, now, age, d, oracle.table(toks[(src, d)]), CURS, [[2]]]) for src, d in docs]
+    outcome = {k: parse_sx(o)[0] for k, o in zip(docs, model_lines(c, cl))}
+    def spec_of(m):
+        if m[0] == b'rates':
+            return [Sym('table')] + [([cur, 'tok', lk[1]] if lk[0] == b'tok' else [cur, lk[0].decode()]) for cur, lk in zip(CURS, m[2])]
+        if m[0] == b'err':
+            return [Sym('err'), m[1]]
+        return None
+    hls = {}
+    for cs in cases:
+        m = outcome.get((cs[0], cs[4]), [b'miss', 0])
+        sp = spec_of(m)
+        if sp is not None:
+            hls.setdefault(sx([Sym('run-exprs'), [0, 0, []], sp, cs[5]]), None)
+    keys = list(hls)
+    for k, o in zip(keys, c.impl('cli', keys)):
+        hls[k] = o
+    lines = [json.dumps({'argv': [fend.encode().hex(), cs[5].encode().hex()], 'stdin': None, 'env': cs[6], 'cwd': scratch, 'timeout': 60}) for cs in cases]
+    outs = vlib.run_batch(worker, lines, timeout=150, min_chunk=10)
+    c.evaluations += len(cases)
+    for cs, o in zip(cases, outs):
+        src, dn, sn, xdg, data, ex, env = cs
+        c.note_case('W:%d:%r:%s:%s:%s' % (src, dn, sn, xdg, ex), True, 'W-%s-%s' % (SRCNAME[src], sn))
+        try:
+            a = json.loads(o)
+            rc, so, se = a['rc'], bytes.fromhex(a['out']), bytes.fromhex(a['err'])
+        except Exception:
+            rc, so, se = 'worker:' + o[:80], b'', b''
+        m = outcome.get((src, data), [b'miss', 0])
+        rep = {'layer': 'W which cache file is read', 'source': SRCNAME[src], 'FEND_CACHE_DIR_name_hex': dn.hex(), 'designated_file': sn,
+               'XDG_CACHE_HOME_set': xdg, 'expr': ex, 'exit': rc, 'stdout': so.decode('utf-8', 'replace')[:200], 'stderr': se.decode('utf-8', 'replace')[:500],
+               'model': sx(m)[:300], 'decoy': 'intact cache with every rate prefixed by 9 in $HOME/.cache/fend and $XDG_CACHE_HOME/fend'}
+        if rc not in (0, 1) or b'panicked' in se:
+            c.violation('conversion-crashes', dict(rep, kind='impl-vs-spec'))
+            continue
+        # spec: only an intact designated file may produce a result
+        if sn != 'intact' and (rc != 1 or so != b''):
+            c.violation('rate-from-another-file', dict(rep, kind='impl-vs-spec',
+                        what='the designated cache is damaged or absent, yet a conversion was printed: the rates come from a file the host did not point at'))
+            continue
+        sp = spec_of(m)
+        if sp is None:
+            if not (rc == 1 and so == b'' and se.startswith(b'Error: failed to retrieve ')):
+                c.violation('which-file-differs-from-model', dict(rep, kind='impl-vs-model'), no_input=True)
+            else:
+                stats['W-miss'] += 1
+            continue
+        h = try_parse(hls[sx([Sym('run-exprs'), [0, 0, []], sp, ex])])
+        if not (isinstance(h, list) and len(h) == 1):
+            c.violation('harness-failed', dict(rep, kind='infrastructure'), no_input=True)
+            continue
+        h = h[0]
+        want = (0, h[1] + b'\n', b'') if h[0] == b'ok' else (1, b'', b'Error: ' + h[1] + b'\n')
+        if (rc, so, se) != want:
+            name = 'rate-from-another-file' if rc == 0 else 'which-file-differs-from-model'
+            c.violation(name, dict(rep, kind='impl-vs-spec' if rc == 0 else 'impl-vs-model', expected=repr(want)[:300]), no_input=(rc != 0))
+        else:
+            stats['W-' + m[0].decode()] += 1
+
+
+# ---------------------------------------------------------------------------
 
 def limit_violations(c, per_name=3):
     """keep the first few replay files per violation name, count the rest"""
@@ -781,6 +902,8 @@ def check(c):
             if age == 259200:
                 jobs.append((src, data, [(2,)], 'framing-' + name))
     l3_layer(c, fend, oracle, scratch, jobs, stats)
+    which_file_layer(c, fend, oracle, scratch, files, stats)
+    lap('W')
     lap('L3')
     c.vm_cross_sample('cli', POOL[0], POOL[1], k=25)
     lap('vm-cross')
